@@ -290,7 +290,7 @@ def conclude(prop, a, cfg, results, twins, stability, kani, seed, t0):
     for v in violations:
         cex = None
         if v["unit"] != "kani":
-            cex = kx.counterexample_for(v["obligation"], a.tier)
+            cex = kx.counterexample_for(v["obligation"], a.tier, kani)
         elif v.get("kani"):
             cex = v["kani"].get("cex")
         path = write_replay(prop, v, cex)
